@@ -60,6 +60,12 @@ def walk(
     if conns is None:
         conns = {**m.signals, **m.ports}
     for inst in m.instances.values():
+        # Flattened names join the hierarchical path with colons.
+        # They are unique only so long as the names being joined include none.
+        if ":" in (inst.name or ""):
+            msg = f"Cannot flatten Instance `{inst.name}`, whose name includes the path-separator `:`"
+            raise ValueError(msg)
+
         new_conns = {}
         new_parents = parents + [inst]
         for src_port_name, sig in inst.conns.items():
@@ -76,6 +82,9 @@ def walk(
             else:
                 raise TypeError(f"Invalid connection {sig}")
 
+            if ":" in key:
+                msg = f"Cannot flatten Signal `{key}`, whose name includes the path-separator `:`"
+                raise ValueError(msg)
             new_sig_name = ":".join([p.name for p in parents] + [key])
             if key in conns:
                 target_sig = conns[key]
